@@ -276,6 +276,11 @@ def judge_binary(case):
     a_src, b_src = case['a'], case['b']
     exact = case.get('exact', False)
     kwargs = {'exact_strings': exact} if fam == 'equal' else {}
+    delta = DELTA
+    if 'delta' in case:
+        # the documented tolerance as the caller sets it; None asks for the default
+        kwargs['delta'] = case['delta']
+        delta = DELTA if case['delta'] is None else case['delta']
     if case.get('present'):
         # keywords that only shape the message must not change the verdict
         kwargs.update({'explanation': {'explanation': 'because I say so'}, 'context': {'context': 'in this context'}, 'assertion': {'assertion': 'my wording'},
@@ -294,7 +299,7 @@ def judge_binary(case):
         if a_err or b_err:
             expect = 'error'
         elif fam == 'equal':
-            expect = ref_equal(a_val, b_val, exact)
+            expect = ref_equal(a_val, b_val, exact, delta)
         else:
             try:
                 expect = bool(rel(a_val, b_val))
@@ -321,7 +326,7 @@ def judge_binary(case):
             s_out = run_assertion(pos, (b_op, a_op), kwargs)
         kind = 'error' if (a_err or b_err) else '%s,%s' % (type(a_val).__name__, type(b_val).__name__)
         base = 'C07|%s' % pos
-        desc = '%s(%s, %s) wrap=%s%s' % (pos, a_src, b_src, wrap, ' exact_strings' if exact else '')
+        desc = '%s(%s, %s) wrap=%s%s%s' % (pos, a_src, b_src, wrap, ' exact_strings' if exact else '', ' delta=%r' % (case['delta'],) if 'delta' in case else '')
         for name, out in ((pos, p_out), (neg, outcomes.get((neg, wrap))), ('swapped ' + pos, s_out)):
             if out is not None and (out[0].startswith('raises') or out[0] == 'inconsistent'):
                 viol.append(V('C07|%s|%s|%s' % (name.replace('swapped ', ''), out[0], 'error-operand' if expect == 'error' and (a_err or b_err) else kind),
@@ -718,6 +723,14 @@ def table(tier):
                 yield {'kind': 'binary', 'family': fam, 'a': a, 'b': b, 'exact': True}
             else:
                 yield {'kind': 'binary', 'family': fam, 'a': a, 'b': b}
+    # the tolerance as a parameter: the default spelled None, none at all, a wide and a narrow one
+    numeric = ['5', '5.0', '5.0004', '5.002', '5.4', '6', "float('inf')", "float('nan')", '[1.0, 2.0]', '[1.0004, 2.4]', '(5.0, 6)', '(5.4, 6.0)',
+               "{'k': 5.0}", "{'k': 5.4}", '{1.0, 2.0}', '{1.0004, 2.4}', 'Rec(1)', 'Rec(1.4)', 'True', "'5.0'", 'None', ERR]
+    for a, b in itertools.product(numeric, numeric):
+        if a in ERRORS and b in ERRORS:
+            continue
+        for delta in (None, 0, 0.5, 1e-06):
+            yield {'kind': 'binary', 'family': 'equal', 'a': a, 'b': b, 'exact': False, 'delta': delta}
     # message-shaping keywords and the unittest-style front end must not change any verdict
     sample = ['5', '3', '5.0004', "'a'", "'A'", '[1, 2]', 'None', ERR]
     for fam in BINARY_FAMILIES:
